@@ -2217,6 +2217,17 @@ class unyt_array(np.ndarray):
             out.units = res_units
         return ret
 
+    def trace(self, offset=0, axis1=0, axis2=1, dtype=None, out=None):
+        """Sum along diagonals, see :func:`numpy.trace` (units are kept)."""
+        return np.trace(
+            self, offset=offset, axis1=axis1, axis2=axis2, dtype=dtype, out=out
+        )
+
+    def round(self, decimals=0, out=None):
+        """Round to the given number of decimals, see :func:`numpy.around`
+        (units are kept)."""
+        return np.around(self, decimals=decimals, out=out)
+
     def take(self, indices, axis=None, out=None, mode="raise"):
         """method
 
